@@ -1,5 +1,5 @@
 (* Extraction of the C20 model (ExtrOcamlBasic only; Z/positive/nat stay inductive). *)
-From LV Require Import Gen.Consts_C20 Httpd.HttpdDefs.
+From LV Require Import Gen.Consts_C20 Httpd.HttpdDefs Httpd.HttpdSend.
 Require Import ExtrOcamlBasic.
 Extraction Language OCaml.
-Extraction "../build/ocaml/C20/model.ml" http_process_n v_prefix v_tree parse_params atoi accept_step http_call subst_text wx_loop C20_WX_SLICE_MS.
+Extraction "../build/ocaml/C20/model.ml" http_process_n v_prefix v_tree parse_params atoi accept_step http_call subst_text wx_loop wxd_loop C20_WX_SLICE_MS.
